@@ -419,6 +419,7 @@ def c08(res: Result):
         c = tr["cfg"]
         return c["candlim"] != 100000 or c["rsthr"] != 1000 or any(len(n["cand"]["v"]) >= 2 for n in tr["events"][-1]["post"]["nodes"])
     execute_and_validate(res, tasks, invs, "cand", nt)
+    validate_pipes(res, "cand")
 
 
 def c12(res: Result):
@@ -1239,6 +1240,53 @@ def run_suite(res: Result, q: bool, tests: list[str], invariants: list[str], lab
                    "test": t["test"]}, open(os.path.join(vd, "verdict.json"), "w"), indent=1)
         res.violations.append(vd)
 
+# ------------------------------------------------------------------------------------------------
+# the candidate pipeline, stage by stage (CandTrace.tla over the step functions of Cand.tla)
+# ------------------------------------------------------------------------------------------------
+def validate_pipes(res: Result, label: str):
+    """
+    Every run of compute_attractor_candidates inside the traces of workload `label` was recorded stage by stage (rec.py);
+    TLC replays the stages through the step functions that Candidates.tla model-checks.  Clause COVERS is a C08 verdict;
+    every other clause is mechanism conformance and reported as a diagnostic.
+    """
+    wd = os.path.join(sdcheck.WORK, res.pid, "tr_" + label)
+    src = os.path.join(wd, "traces.ndjson")
+    pf = os.path.join(wd, "pipes.ndjson")
+    n, kinds, owner = 0, {}, {}
+    with open(pf, "w") as f:
+        for ln in open(src):
+            tr = json.loads(ln)
+            for j, pr in enumerate(tr.get("pipes", [])):
+                tid = f"{tr['tid']}.{j}"
+                owner[tid] = (tr, pr)
+                f.write(json.dumps({"tid": tid, "net": tr["net"], "events": pr["events"]}) + "\n")
+                n += 1
+                for e in pr["events"]:
+                    kinds[e["k"]] = kinds.get(e["k"], 0) + 1
+    if n == 0:
+        raise tlc.TLCFailure("no pipeline runs were recorded (vacuous)")
+    out = tlc.validate_traces(pf, "CandTrace", ["Inv_MECH", "Inv_COVERS", "Inv_COMPLETE"], os.path.join(wd, "v_pipes"))
+    res.cov["states"] += out["states"]
+    res.cov["transitions"] += out["generated"]
+    res.cov["traces_validated_against_impl"] += out["traces"]
+    mech = [v for v in out["violations"] if v[0] != "COVERS"]
+    res.cov["pipeline_conformance"] = {"runs": n, "stage_events": kinds, "accepted": len(out["done"]),
+                                       "mechanism_deviations": len(mech),
+                                       "errors_raised": sum(1 for (t, pr) in owner.values() if pr["events"][-1]["ret"] == "error")}
+    res.cov["model_deviations"] = res.cov.get("model_deviations", 0) + len(mech)
+    for (c, tid, l, k) in mech[:3]:
+        print(f"MODEL-DEVIATION (diagnostic, not a violation) property={res.pid} clause=PIPELINE-{c} trace={tid} event={l} op={k}")
+    for i, (c, tid, l, k) in enumerate(v for v in out["violations"] if v[0] == "COVERS"):
+        if i >= 10:
+            break
+        tr, pr = owner[tid]
+        vd = os.path.join(sdcheck.WORK, res.pid, "violations", f"pipe_{tid}")
+        os.makedirs(vd, exist_ok=True)
+        json.dump({"tid": tid, "net": tr["net"], "events": pr["events"]}, open(os.path.join(vd, "trace.json"), "w"))
+        json.dump({"property": res.pid, "engine": "pipeline", "failing": [{"invariant": "COVERS", "event": l, "op": k}],
+                   "history": sdcheck.trace_signature(tr, pr["event"]), "node": pr["node"]}, open(os.path.join(vd, "verdict.json"), "w"), indent=1)
+        res.violations.append(vd)
+
 
 CHECKS = {"C16": c16, "C17": c17, "C18": c18, "C19": c19, "C13": c13, "C06": c06, "C07": c07, "C09": c09, "C10": c10, "C11": c11, "C15": c15, "C01": c01, "C02": c02, "C03": c03, "C04": c04, "C05": c05, "C08": c08, "C12": c12, "C14": c14, "C20": c20}
 
@@ -1414,7 +1462,8 @@ def replay(pid: str, path: str) -> int:
     else:
         with open(tf, "w") as f:
             f.write(json.dumps(tr) + "\n")
-        module = {"pure": "PureTrace", "pure-models": "PureTrace", "control": "ControlTrace", "twin": "Twin", "depth-action": "DepthTrace"}.get(engine)
+        module = {"pure": "PureTrace", "pure-models": "PureTrace", "control": "ControlTrace", "twin": "Twin", "depth-action": "DepthTrace",
+                  "pipeline": "CandTrace"}.get(engine)
         if module is None:
             print(f"no replay for engine {engine}; see {path}/verdict.json")
             return 1
